@@ -160,7 +160,7 @@ pub fn run(case: &SchedCase) -> CaseResult {
 					continue;
 				}
 				audible += 1;
-				if (*s - full).abs() > 1e-6 {
+				if !((*s - full).abs() <= 1e-6) {
 					res.fail(Violation::new(
 						"reference-mixer",
 						"send-route-skipped",
